@@ -193,6 +193,25 @@ jobs:
       - run: echo ${{ «github».«event».«issue».«labels».*.«name» }} ${{ «github»['«event»'].«comment»['«body»'] }}
         env:
           «SAFE»: ${{ «github».«event».«issue».«title» }}
+  «h»:
+    runs-on: ubuntu-latest
+    strategy:
+      matrix:
+        «plat»: ${{ «fromJSON»('["linux","mac"]') }}
+        «ver»: [1, 2]
+        «flavor»: [a, b]
+        include:
+          - «plat»: bsd
+            «extra»: ${{ «github».«sha» }}
+        exclude:
+          - «plat»: linux
+            «ver»: 1
+          - «plat»: win
+          - «extra»: y
+          - «flavor»: c
+          - «nokey»: 1
+    steps:
+      - run: echo ${{ «matrix».«plat» }} ${{ «matrix».«extra» }} ${{ «matrix».«flavor» }} ${{ «matrix».nothere }}
 `,
 }
 
